@@ -38,6 +38,10 @@ var dnsNames = []string{"host.example.org", "evil.example.com.", "a-b.c.d", "xn-
 var keyTypes = []string{"ED25519", "RSA", "ECDSA", "ED25519-CERT", "RSA-CERT"}
 var certReasons = []string{"expired", "name is not a listed principal", "not yet valid", "Certificate invalid: nested", "bad  spacing inside"}
 
+// hostileNames lets GenSshdMsg draw client-chosen names that read like other log messages (set
+// by scenarios whose oracle is differential and does not assume that the message is recognised).
+var hostileNames bool
+
 // GenSshdMsg draws a message of the given form (or a random form if form == "").
 func GenSshdMsg(t *simrt.Tape, form string, uniq int) *SshdMsg {
 	if form == "" {
@@ -64,6 +68,13 @@ func GenSshdMsg(t *simrt.Tape, form string, uniq int) *SshdMsg {
 		mark = stretchMark
 	}
 	userPlain := user
+	if hostileNames && !strings.HasPrefix(form, "accepted-") {
+		// a client chooses the name it presents: names with blanks that read like other sshd or
+		// PAM chatter ("ssh -l 'x Disconnected from y' host")
+		if h := t.Choose(8, "user.hostile"); h >= 5 {
+			user = []string{"x Disconnected from y", "pam_unix(sshd:auth): z", "q Connection closed by 10.0.0.1 port 22"}[h-5] + fmt.Sprint(uniq)
+		}
+	}
 	user += mark
 	fp := "SHA256:" + b64ish(t, 43)
 	if t.Choose(6, "md5fp") == 0 {
@@ -90,10 +101,14 @@ func GenSshdMsg(t *simrt.Tape, form string, uniq int) *SshdMsg {
 				l.KeyID = "" // ssh-keygen -I '': sshd prints "ID  (serial N)"
 			case 0:
 				l.KeyID = fmt.Sprintf("ops team (serial %d) x", uniq)
+			case 2:
+				l.KeyID = fmt.Sprintf("ci-job[%d]", 40000+uniq) // a bracketed number, as in "sshd[4242]:"
 			case 3:
 				l.KeyID = fmt.Sprintf("build  bot   %d", uniq) // runs of blanks inside the key id are part of it
 			}
 			l.Serial = uint64(t.Choose(1<<30, "serial"))
+			// serial numbers at and beyond the edge of 64 bits, and with leading zeros
+			l.SerialText = []string{"", "18446744073709551615", "18446744073709551616", "0007", "340282366920938463463374607431768211455", ""}[t.Choose(6, "serial.odd")]
 			if l.CAFP == "" {
 				l.CAFP = b64ish(t, 43)
 			}
